@@ -119,6 +119,13 @@ pub fn run(ctx: &Ctx, out: &mut Out) {
         let goals: Vec<String> = (0..8).map(|_| crate::progen::graph_goal(&mut rng, n)).collect();
         jobs.push((text, goals));
     }
+    // provisional-result motif: head of a cycle decided after its members and their consumers were visited
+    let nprov = ctx.budget(150, 5000);
+    for i in 0..nprov {
+        let mut rng = ctx.rng(4, i as u64);
+        let (text, _n, goals) = crate::progen::provisional_program(&mut rng, true);
+        jobs.push((text, goals));
+    }
     for (text, goals) in jobs {
         let (_db, program) = match lower_program(&text, chalk_integration::SolverChoice::slg_default()) {
             Ok(x) => x,
